@@ -450,6 +450,13 @@ class PrinterBoom(Exception):
     pass
 
 
+class PrinterBoomBase(BaseException):
+    """not an Exception (like KeyboardInterrupt): the state must be restored all the same"""
+
+
+BOOM = [PrinterBoom]      # the class the registered printer raises (switched per history)
+
+
 def realize_graph(kind, kids):
     """objects for an abstract graph, or None if it cannot exist (a cycle through immutable models only)"""
     import hy.models as M
@@ -507,7 +514,7 @@ def main_c28(run):
     if len(hists) > (1500 if q else 30000):
         hists = rng.sample(hists, 1500 if q else 30000)
     # printers
-    R.hy_repr_register(Raiser, lambda x: (" ".join(R.hy_repr(c) for c in x), (_ for _ in ()).throw(PrinterBoom()))[0],
+    R.hy_repr_register(Raiser, lambda x: (" ".join(R.hy_repr(c) for c in x), (_ for _ in ()).throw(BOOM[0]()))[0],
                        placeholder="<R...>")
     orig = R.hy_repr
     events = []
@@ -533,7 +540,8 @@ def main_c28(run):
     nreal = 0
     try:
         R.hy_repr = spy
-        for h in hists:
+        for hix, h in enumerate(hists):
+            BOOM[0] = PrinterBoomBase if hix % 2 else PrinterBoom
             objs = realize_graph(h["kind"], h["kids"])
             if objs is None:
                 continue
@@ -545,14 +553,14 @@ def main_c28(run):
                 del events[:]
                 try:
                     ref[o] = ("ok", hy.repr(v))
-                except PrinterBoom:
+                except (PrinterBoom, PrinterBoomBase):
                     ref[o] = ("raised", None)
             del events[:]
             nreal += 1
             for (o, want) in h["calls"]:
                 try:
                     got = ("ok", hy.repr(objs[o]))
-                except PrinterBoom:
+                except (PrinterBoom, PrinterBoomBase):
                     got = ("raised", None)
                 key = json.dumps({"kind": h["kind"], "kids": h["kids"], "calls": h["calls"]})
                 run.case(key)
